@@ -75,7 +75,9 @@ def run(ctx):
     distinct = len(set(files[0])) if files else 0
 
     # the decidable hypotheses of `compile_order_independent`, per program, by the Lean driver
-    inv = {"programs": 0, "ok": 0, "na": 0, "fail": 0, "candidates": 0, "failing_ids": []}
+    inv = {"programs": 0, "ok": 0, "na": 0, "fail": 0, "candidates": 0, "failing_ids": [],
+           # `aDefinedOf`: the elementary hypothesis of compile_order_independent_total_partial (implies fusionInvariantOf)
+           "adefined": 0, "adefined_fail_ids": []}
     cases = f"{out}/determinism.p0.cases"
     failing = []
     if os.path.exists(cases):
@@ -90,6 +92,15 @@ def run(ctx):
         else:
             for pr, a in zip(progs, answers):
                 t = a.split()
+                adef = next((x.split("=")[1] for x in t if x.startswith("adef=")), None)
+                if adef == "1":
+                    inv["adefined"] += 1
+                elif adef == "0":
+                    # outside the hypothesis of the *total* theorem (the weaker per-program `fusionInvariant` may still hold):
+                    # recorded, and rebuilt 200x like a program outside compile_order_independent's hypotheses
+                    inv["adefined_fail_ids"].append({"id": pr["id"], "answer": a})
+                    if t[1] == "ok":
+                        failing.append(pr)
                 if t[1] == "ok":
                     inv["ok"] += 1
                     inv["candidates"] += int(t[2])
@@ -197,7 +208,7 @@ def run(ctx):
 
 
 CHECK = {
-    "lean_modules": ["P3R.Props.C18", "P3R.Props.C18Order", "P3R.Witness.C18Order"],
+    "lean_modules": ["P3R.Props.C18", "P3R.Props.C18Order", "P3R.Witness.C18Order", "P3R.Props.C18Lower", "P3R.Props.C18Dedup", "P3R.Props.C18Reach", "P3R.Props.C18Total", "P3R.Witness.C18Total"],
     "theorems": ["P3R.C18.lookup_perm_nodup", "P3R.C18.filterRound_order_independent",
                  # generic shapes
                  "P3R.C18.firstErr_isSome_perm", "P3R.C18.firstErr_perm_of_unique", "P3R.C18.extendMap_lookup_perm",
@@ -216,6 +227,25 @@ CHECK = {
                  "P3R.C18.rewritePass_perm",
                  # combined
                  "P3R.C18.compile_order_independent", "P3R.C18.compileOrd_core",
+                 # C18Total: expr_to_widx round trip; the fusion invariant derived for every op list from def-before-use of
+                 # first add operands; the ordered build equals the fixed-order build
+                 "P3R.C18.e2wCollect_pairs", "P3R.C18.e2wCollect_ord", "P3R.C18.finalE2w_eq",
+                 "P3R.C18.candidates_addIdx_nodup", "P3R.C18.cand_eq_of_mulIdx", "P3R.C18.candidates_mulIdx_nodup",
+                 "P3R.C18.defStep_shape", "P3R.C18.scan_inv", "P3R.C18.later_shared_out", "P3R.C18.no_shared_out",
+                 "P3R.C18.candidates_out_nodup", "P3R.C18.fusionInvariant_of_aDefined", "P3R.C18.fusionInvariantOf_of_aDefinedOf",
+                 "P3R.C18.compileOrd_eq_fixed", "P3R.C18.compile_order_independent_total_partial", "P3R.C18.compileOrd_core_e2w",
+                 # the lowering names every first add operand before it reads it; dedup keeps that; the total theorem
+                 "P3R.C18L.aDefined_of_ADef", "P3R.C18L.ADef_append", "P3R.C18L.prealloc_E", "P3R.C18L.emitNpCall_E", "P3R.C18L.emit_E",
+                 "P3R.C18L.lower_ADef", "P3R.C18L.lower_aDefined",
+                 "P3R.C18L.keyReads", "P3R.C18L.step_D", "P3R.C18L.dedup_ADef", "P3R.C18L.lower_aDefinedOf",
+                 "P3R.C18.compile_order_independent_total", "P3R.C18.fusionInvariantOf_lower",
+                 "P3R.C18L.PInv.frame", "P3R.C18L.PInv.allocPrivate", "P3R.C18L.Reachable.privOk", "P3R.C18.compile_order_independent_reachable",
+                 "P3R.Witness.C18Total.prog_reachable", "P3R.Witness.C18Total.reachable_applies",
+                 "P3R.Witness.C18Total.prog_privOk", "P3R.Witness.C18Total.total_applies'", "P3R.Witness.C18Total.privOk_needed",
+                 "P3R.Witness.C18Total.shared_out_reachable", "P3R.Witness.C18Total.shared_out_invariant",
+                 "P3R.Witness.C18Total.useBeforeDef_shared_out", "P3R.Witness.C18Total.subResult_reachable",
+                 "P3R.Witness.C18Total.total_applies", "P3R.Witness.C18Total.total_builds",
+                 "P3R.Witness.C18Total.duplicate_tags_order_dependent",
                  # witnesses: non-vacuity and necessity of the hypotheses
                  "P3R.Witness.C18Order.prog_hyps", "P3R.Witness.C18Order.prog_order_independent", "P3R.Witness.C18Order.prog_builds",
                  "P3R.Witness.C18Order.tag_error_order_dependent", "P3R.Witness.C18Order.airLoop_order_dependent",
@@ -228,7 +258,10 @@ CHECK = {
                      "the ordered models (Model/Order.lean) are tied to the code through the fixed-order models they are proved equal to "
                      "(lowerOrd = lower, fuseOrd = fuse), which C02/C09 compare with the real build line by line"],
     "assumptions": ["equality with the Lean model's own output is checked by C02/C09 on the same generator",
-                    "fusionInvariant (distinct candidate outputs / mul positions) is a hypothesis of compile_order_independent, evaluated per program by the driver",
+                    "fusionInvariant (distinct candidate outputs / mul positions) is a hypothesis of compile_order_independent; compile_order_independent_total "
+                    "derives it for every builder state with privOk (private-input nodes at distinct positions, what alloc_private_input constructs; shown necessary): "
+                    "lower_ADef (every first add operand is a private row or named by an earlier op) -> dedup_ADef -> fusionInvariant_of_aDefined. The driver still "
+                    "evaluates fusionInvariant and aDefined per program (coverage fields ok / adefined) as a model-vs-theorem cross-check",
                     "AIR-builder loop: order-independent only when every builder builds at most one entry (airLoop_perm); the generic Poseidon builders do not satisfy it with two tables"],
 }
 
@@ -241,7 +274,8 @@ MANIFEST_ENTRY = {
                  "sites driven on the real code",
     "level_claimed": {"category": "proof", "text": "for every builder program and any two assignments of iteration orders to all iterated hash containers "
                       "(in_connect, the fusion pass's valid set, expr_to_widx, trace generators, tags) the compile model returns the same circuit "
-                      "(compile_order_independent; hypotheses: distinct fusion candidates — evaluated per program —, distinct tags, at most one unmapped tag); "
+                      "(compile_order_independent_total: equal to the fixed-order build compileFixed incl. expr_to_widx; hypotheses: privOk of the builder state, distinct tags, "
+                      "at most one unmapped tag — each shown necessary; the fusion invariant is derived, no longer a per-program hypothesis); "
                       "ConnectDsu::find with path compression is proved observationally pure; the AIR-builder loop is proved order-independent when each "
                       "builder builds at most one table and shown order-dependent otherwise (reproduced on the real code); determinism of the real build under "
                       "fresh hash seeds, processes and thread counts is exercised by digest comparison; a hash iteration that is not in the inventory is reported "
